@@ -524,9 +524,23 @@ func (s snapshot) coq() string {
 	for i := range s.ProgNodes {
 		pr[i] = vh.Pair(vh.N(s.ProgNodes[i]), vh.N(s.ProgMatch[i]))
 	}
-	return vh.App("mkSnap", vh.NList(s.Rows), vh.N(s.LEO), vh.N(s.HW), vh.N(s.Local), vh.N(s.Phys), vh.N(s.RMax),
+	return vh.App("mkSnap", rangesCoq(s.Rows), vh.N(s.LEO), vh.N(s.HW), vh.N(s.Local), vh.N(s.Phys), vh.N(s.RMax),
 		vh.App("mkRState", vh.N(s.Role), vh.N(s.LocalNode), vh.NList(s.ISR), vh.List(pr),
 			vh.N(s.RLEO), vh.N(s.RHW), vh.N(s.RCkpt), vh.N(s.RRet), vh.N(s.RLocal), vh.N(s.RPhys)))
+}
+
+// rangesCoq prints an ascending sequence list as (rgs [(lo, hi); ...]).
+func rangesCoq(rows []uint64) string {
+	var parts []string
+	for i := 0; i < len(rows); {
+		j := i
+		for j+1 < len(rows) && rows[j+1] == rows[j]+1 {
+			j++
+		}
+		parts = append(parts, vh.Pair(vh.N(rows[i]), vh.N(rows[j])))
+		i = j + 1
+	}
+	return vh.App("rgs", vh.List(parts))
 }
 
 func takeSnapshot(cs channelstore.ChannelStore, st *machine.ChannelState) snapshot {
